@@ -107,7 +107,7 @@ def register(R):
     def pp_ens(c):
         s = c.ref('self')
         x = z3.Int('!px')
-        return [('C03.everything-below-gets-the-priority', S.FA([x], z3.Implies(S.Desc(s, x), c.post.get('_priority', x) == c.pre.get('_priority', s)), patterns=[S.Desc(s, x)]))]
+        return [('C03+C04.everything-below-gets-the-priority', S.FA([x], z3.Implies(S.Desc(s, x), c.post.get('_priority', x) == c.pre.get('_priority', s)), patterns=[S.Desc(s, x)]))]
 
     def pp_inv(c, L):
         s = c.ref('self')
@@ -125,7 +125,7 @@ def register(R):
 
     R.add(Contract(C + 'ComposedNode._propagate_priority', [P.node('self', 'ComposedNode')], requires=pp_req,
                    modifies=lambda c: [('_priority', (lambda r, c=c: S.Desc(c.ref('self'), r)))],
-                   ensures=[('pp', pp_ens), ('descendants-stay-valid', lambda c: S.desc_valid(c.post, c.ref('self')))], props=('C03',), loops={0: Loop(pp_inv, mod_locals=['child'], mod_fields=['_priority'])},
+                   ensures=[('pp', pp_ens), ('descendants-stay-valid', lambda c: S.desc_valid(c.post, c.ref('self')))], props=('C03', 'C04'), loops={0: Loop(pp_inv, mod_locals=['child'], mod_fields=['_priority'])},
                    ))
     R.inline_keys.add(N + 'ConfigNode._propagate_priority')
     register_callee(R)
